@@ -348,7 +348,13 @@ Fixpoint mi (o : op) (path : list nat) : nat -> mstate -> LS :=
           let '(z, s0) := if N.eqb mn 0 then (let '(d, s') := is_dup path p s in
                                               (if d then 0 else 1, s'))
                           else (0, s) in
-          force_progress 0 None (explore (mi o' (0 :: path)) mnc bound z (n + 5) 0 true p s0)
+          (* the zero-repetition entry is an unconsumed iter::once: when it becomes the top of the
+             stack it yields the start position, which re-deepens from there a second time *)
+          let first_pass := explore (mi o' (0 :: path)) mnc bound z (n + 5) 0 true p s0 in
+          force_progress 0 None
+            (if Nat.eqb z 1
+             then append first_pass (fun s' => explore (mi o' (0 :: path)) mnc bound z (n + 5) 0 false p s')
+             else first_pass)
         else
           force_progress 0 None
             (if N.eqb mn 0
